@@ -63,6 +63,10 @@ func (sm *SyncManager) verifPaused(f func()) {
 	f()
 }
 
+// VerifPaused runs f while the block handler is held in its pauseMsg case (a deterministic stand-in for "the
+// handler is busy with another peer's batch"): messages queued meanwhile are handled, in order, after f returns.
+func (sm *SyncManager) VerifPaused(f func()) { sm.verifPaused(f) }
+
 // VerifSnapshot reads the state machine under pause.
 func (sm *SyncManager) VerifSnapshot() VerifState {
 	var st VerifState
